@@ -19,7 +19,7 @@ Record thr := {
   k_zero   : Z;   (* vectors.iszerovec   : norm(v) < tol * _eps, default tol *)
   k_iszero : Z;   (* vectors.iszero      : abs(v) < tol * _eps, default tol *)
   k_isunit : Z;   (* vectors.isunitvec   : abs(norm(v) - 1) < tol * _eps, default tol (also isunittwist) *)
-  k_unit   : Z;   (* vectors.unitvec_norm: n > 100 * _eps *)
+  k_unit   : Z;   (* vectors.unitvec_norm: n >= k * _eps  (fix 4dbd011: the complement of the iszerovec test) *)
   k_eye    : Z;   (* transformsNd.iseye  : norm(S - eye) < tol * _eps, default tol *)
   k_half   : Z    (* transforms3d.trlog  : abs(trace(R) + 1) < 100 * _eps *)
 }.
@@ -60,9 +60,9 @@ Definition isunittwist2 (tw : V3 T) : bool :=
 
 Definition unitvec_norm3 (v : V3 T) : option (V3 T * T) :=
   let n := norm3 O v in
-  if ltb O (thv (k_unit K)) n then let '(v0,v1,v2) := v in Some ((v0/n, v1/n, v2/n), n) else None.
+  if leb O (thv (k_unit K)) n then let '(v0,v1,v2) := v in Some ((v0/n, v1/n, v2/n), n) else None.
 Definition unitvec_norm1 (w : T) : option (T * T) :=
-  let n := norm1 w in if ltb O (thv (k_unit K)) n then Some (w/n, n) else None.
+  let n := norm1 w in if leb O (thv (k_unit K)) n then Some (w/n, n) else None.
 
 (* unittwist_norm on a twist that is already known not to be (numerically) zero: (S / th, th) *)
 Definition unittwist_norm (tw : V6 T) : V6 T * T :=
